@@ -1,6 +1,7 @@
 import PynencModel.Props.C03
 import PynencModel.Props.C03Wakeup
-open Pynenc.C03 Pynenc.C03W
+import PynencModel.Props.C03Lazy
+open Pynenc.C03 Pynenc.C03W Pynenc.C03L
 #print axioms table_pollClaim
 #print axioms table_runOk
 #print axioms table_runRetry
@@ -15,3 +16,7 @@ open Pynenc.C03 Pynenc.C03W
 #print axioms status_then_push_reachable
 #print axioms push_then_status_loses
 #print axioms programs_write_status_before_push
+#print axioms lazy_inv_step
+#print axioms lazy_poll_never_strands
+#print axioms marking_claimed_ids_strands_them
+#print axioms code_adds_to_the_skip_set_only_on_wait_graph_claims
